@@ -257,6 +257,11 @@ def gen(r, tier):
         op = {"t": t, "op": "add", "site": sid, "path": path, "kind": kind, "id": new_id()}
         if kind in ("leaf", "slow", "pc", "hidden"):
             op["desc"] = gen_desc(r)
+            if r.chance(0.3):
+                # the resource describes itself the way the library's own Resource base class offers: attributes `rt`,
+                # `if_` and `ct` (a content format number where it is a single one -- 0 is text/plain) on the object
+                op["desc"] = {k: v for k, v in op["desc"].items() if k in ("rt", "if", "ct")}
+                op["wk_attrs"] = True
         if kind == "slow":
             op["delay"] = r.choice([0.05, 0.2, 0.6])
         if kind == "pc" and r.chance(0.3):
@@ -547,10 +552,21 @@ def execute(sim, scn):
         def __init__(self, spec):
             super().__init__()
             self.spec = spec
+            if spec.get("wk_attrs"):
+                d = spec.get("desc") or {}
+                if "rt" in d:
+                    self.rt = d["rt"]
+                if "if" in d:
+                    self.if_ = d["if"]
+                if "ct" in d:
+                    self.ct = int(d["ct"]) if d["ct"].isdigit() else d["ct"]
+                sim.probe("description_from_attributes")
 
         def get_link_description(self):
             if self.spec["kind"] == "hidden":
                 return None
+            if self.spec.get("wk_attrs"):
+                return super().get_link_description()
             return dict(self.spec.get("desc") or {})
 
         async def render_get(self, request):
